@@ -195,3 +195,64 @@ impl Val for Box<String> {
     }
     storage!(Box<String>);
 }
+
+impl Val for (u32, String, Box<String>) {
+    const NAME: &'static str = "(u32,String,Box<String>)";
+    fn make(key: u8, variant: u8, payload: usize) -> Self {
+        let rest = payload.saturating_sub(size_of::<String>()).max(8);
+        (7, string_with(key, variant, rest / 2), Box::new(string_with(key, variant, rest - rest / 2)))
+    }
+    fn ident(&self) -> (u8, u8) {
+        untag(&self.1)
+    }
+    fn footprint(&self) -> usize {
+        size_of::<(u32, String, Box<String>)>() + self.1.capacity() + size_of::<String>() + self.2.capacity()
+    }
+    storage!((u32, String, Box<String>));
+}
+
+impl Val for (u8, u8, String) {
+    const NAME: &'static str = "(u8,u8,String)";
+    fn make(key: u8, variant: u8, payload: usize) -> Self {
+        (key, variant, string_with(key, variant, payload))
+    }
+    fn ident(&self) -> (u8, u8) {
+        (self.0, self.1)
+    }
+    fn footprint(&self) -> usize {
+        size_of::<(u8, u8, String)>() + self.2.capacity()
+    }
+    storage!((u8, u8, String));
+}
+
+impl Val for Vec<Vec<u8>> {
+    const NAME: &'static str = "Vec<Vec<u8>>";
+    fn make(key: u8, variant: u8, payload: usize) -> Self {
+        let outer = 2 * size_of::<Vec<u8>>();
+        let rest = payload.saturating_sub(outer).max(4);
+        let mut v = Vec::with_capacity(2);
+        v.push(bytes_with(key, variant, rest));
+        v
+    }
+    fn ident(&self) -> (u8, u8) {
+        (self[0][0], self[0][1])
+    }
+    fn footprint(&self) -> usize {
+        size_of::<Vec<Vec<u8>>>() + self.capacity() * size_of::<Vec<u8>>() + self.iter().map(|x| x.capacity()).sum::<usize>()
+    }
+    storage!(Vec<Vec<u8>>);
+}
+
+impl Val for (String, Option<String>) {
+    const NAME: &'static str = "(String,Option<String>)";
+    fn make(key: u8, variant: u8, payload: usize) -> Self {
+        (string_with(key, variant, payload / 2), if variant % 2 == 0 { Some(string_with(key, variant, payload - payload / 2)) } else { None })
+    }
+    fn ident(&self) -> (u8, u8) {
+        untag(&self.0)
+    }
+    fn footprint(&self) -> usize {
+        size_of::<(String, Option<String>)>() + self.0.capacity() + self.1.as_ref().map_or(0, |x| x.capacity())
+    }
+    storage!((String, Option<String>));
+}
